@@ -300,6 +300,8 @@ def make_info(rng, version):
     shape_extra = ""
     if typ == "str":
         value = jv = text_value(rng) if rng.random() < 0.7 else ident(rng, numeric_ok=False)
+        if rng.random() < 0.03:
+            value = jv = ""                 # an attribute left empty (performer unknown)
     elif typ == "plain":
         value = jv = ident(rng, numeric_ok=False)
     elif typ == "float":
@@ -325,8 +327,8 @@ def make_info(rng, version):
         shape_extra = f"{k['key'][0]}{k['key'][1][:3]}" + ("/alt" if k["alt"] else "") + ("+list" if k["others"] else "")
     else:  # timesig
         num, den = rng.choice(TIMESIGS)
-        others = [list(rng.choice(TIMESIGS)) for _ in range(rng.randint(1, 3))] \
-            if tuple(version) >= (0, 4, 0) and rng.random() < 0.3 else []
+        # (a list of signatures in every version: files of versions 0.1.0-0.3.0 have them too)
+        others = [list(rng.choice(TIMESIGS)) for _ in range(rng.randint(1, 3))] if rng.random() < 0.3 else []
         value, jv = build_timesig(num, den, others), {"ts": [num, den], "others": others}
         shape_extra = f"{num}/{den}" + ("+list" if others else "")
     spec = {"Attribute": attr, "Value": jv}
